@@ -365,6 +365,34 @@ _ROUND2 = {
 for _pid, _txt in _ROUND2.items():
     PROPS[_pid]["rule"] += " Also: " + _txt + "."
 
+# Generator and oracle extensions of rounds 4 and 5 of the seeded-change campaign (DESIGN.md §14).
+_JLROUTE = "one case in 25 also goes through the jl BINARY built from the tree (inline template equivalent to the case's templates, raw types under every name the descriptor language has for them, now and then a name outside the registries), judged like the others"
+_API = "the equivalent spellings of the API are taken in turn (importer / exporter from the template or built on their own, Import+GetRow or ReadOne, With or the builder method named after the format)"
+_ROUND5 = {
+    "C01": "literal backslash in front of escape-like text in keys and strings; batches of 3-8 lines through ONE importer and exporter (every other batch reads all rows first, then exports them); " + _JLROUTE + "; " + _API,
+    "C02": "a rejected line inside the batches; one round trip in 25 also through the jl binary without template, twice",
+    "C03": "repeated member names at every depth (the oracle resolves them: first position, last value); columns with a raw type (a missing column is null whatever its type: missingColumnViolation); wide templates and inputs (8-130 columns); batches of lines, every other one holding all rows before exporting; " + _JLROUTE + "; " + _API,
+    "C04": "the same column pair fed with every scalar text in turn through one importer and exporter; rows made by the output template itself whose cell was replaced by a Value of another format, exported through that template; " + _JLROUTE + "; " + _API,
+    "C05": "base64 texts that look like a hex literal, a number, a keyword or a date, also broken over lines; literal backslash in front of escape-like text; the second pass is repeated reading the emitted line into a row that has just held another line with the same member names",
+    "C06": "cells with a declared raw type and values they reject (the driver replays on the Value-level cell operations); names differing only by case; another object over a name that holds one; rows that grow past 8/16/32/64 keys through every mutator; rows made by templates with names declared twice (as a column and as a sub-row); clones taken and grown between the operations",
+    "C07": "lines of other framings (starting with a closing or separating character, stopping with a bracket open, concatenated objects, byte order mark, control bytes, an escaped line feed in a member name); streams of 70, 300 and 1100 lines; a header read with ReadOne, then WithTemplate, then the rest streamed; one stream in 12 also through the jl binary",
+    "C08": "a writer that fails after writing everything; array-form and CR-separated streams; faults late in a 200-line stream; Stream() called again after a fatal write failure; without any fault success only after every line had its outcome; the jl binary with an unreadable standard input, the base streams and the line of 10 485 760 bytes",
+    "C09": "numbers in carriers outside the supported set (big numbers, raw JSON, durations, named and pointer types), judged by their carried value; casts with cast.TimeStringFormat assigned digits-only and date-only layouts; column level: formats that read text x 10 integer raw types x 40 decimal texts as JSON strings and numbers",
+    "C10": "carriers and standard-library types outside the supported set; byte slices and texts of 17 to 70000 bytes; imports into a cell that has just refused something, next to a sibling row whose column took Values of other declarations",
+    "C11": "imports after rejected payloads; whole lines through the library and through the jl binary (byte = uint8, rune = int32), judged by c11LineViolation (width of the accepted payload, re-emission of the accepted bytes)",
+    "C12": "the same renderings taken from numeric / string columns (marshalled, exported, after Set twice on the key with a first value of another Go type; constructor named after the format or the general one)",
+    "C13": "one exporter per pairing kept for every value of the run, refused values included",
+    "C14": "raw types that cannot hold a time (the cast fails, the value is kept); calendar-rule date-times (century years, year 0004, 1582, the last second of a year east and west, -00:00, maximal offsets); a date-time member that comes twice in a line (the oracle resolves repeated names); the column texts in turn through one importer and exporter; " + _JLROUTE,
+    "C15": "Row.Import handed another row; a sub-row inside a sub-row with three-segment ImportAtPath",
+    "C16": "lines with 12000 and 70000 sibling containers at small depth; a repeated name whose occurrences are of different kinds; days the calendar does not have under a date column, judged against the hand-written calendar whatever the cast tables say",
+    "C17": "a systematic sweep: every format x every raw type x a universe of ~250 Go values (edge texts of every parser, non-finite floats, far-away times, rows, values, structs with unexported fields, pointers, big numbers, raw JSON) through every entry point that takes a value and every Value constructor, and the same texts as lines",
+    "C18": "rows used before they are read (path reads, path imports, growth, cloning); Values taken out of parsed rows as imported values; what a path finds against key-by-key navigation of the document as the row PRINTS it (rows without Go maps)",
+    "C19": "column names a loader could take for paths or YAML / JSON look-alikes; a name declared twice at one level",
+    "C20": "a sub-row inside a sub-row with path imports on each goroutine's own rows; the first round starts with no importer created before in the process; every input starts with a byte order mark",
+}
+for _pid, _txt in _ROUND5.items():
+    PROPS[_pid]["rule"] += " Rounds 4-5: " + _txt + "."
+
 
 # Which casters of pkg/cast (names as the translator reports them: ToXxx, "To" for the dispatcher,
 # "binary_ops" for the xxxToBytes / xxxFromBytes functions) the theorems of a property are about: a source
